@@ -118,8 +118,10 @@ SIMPLE_TYPES = ["UInt8", "UInt16", "UInt32", "UInt64", "Int8", "Int32", "Int64",
                 "Date", "DateTime", "UUID", "Bool", "IPv4", "Date32", "Int128", "UInt256"]
 
 
-def data_type(r, depth=0):
+def data_type(r, depth=0, ddl=False):
     x = r.below(22 if depth < 3 else 8)
+    if x == 19 and not ddl:
+        x = 9
     if x < 8:
         return r.pick(SIMPLE_TYPES)
     if x == 8:
@@ -392,7 +394,12 @@ def col_transformers(r, force=False):
 # ------------------------------------------------------------------------------------------
 # SELECT
 
-def table_expr(r, d):
+# the parser takes INTO (of INTO OUTFILE) for a table alias when it directly follows a table
+# expression without alias / FINAL / SAMPLE; STATE["bare"] tells that the text generated last ends so
+STATE = {"bare": False}
+
+
+def table_expr(r, d, first=True):
     x = r.below(16)
     if x < 7:
         s = r.pick(TABLES)
@@ -407,12 +414,17 @@ def table_expr(r, d):
         s = "system.one"
     else:
         s = r.pick(TABLES)
+    bare = True
     if r.p(1, 4):
         s += r.pick([" AS ", " "]) + r.pick(["u", "v", "tt", "s1", "s2"])
-    if x < 7 and r.p(1, 8):
+        bare = False
+    if first and x < 7 and r.p(1, 8):
         s += " FINAL"
-    if x < 7 and r.p(1, 8):
+        bare = False
+    if first and x < 7 and r.p(1, 8):
         s += " SAMPLE " + r.pick(["0.1", "1/10", "1000", "1/10 OFFSET 1/2", "0.5 OFFSET 0.25"])
+        bare = False
+    STATE["bare"] = bare
     return s
 
 
@@ -428,21 +440,23 @@ def from_clause(r, d):
     for _ in range(n):
         x = r.below(8)
         if x == 0:
-            s += ", " + table_expr(r, d)
+            s += ", " + table_expr(r, d, first=False)
             continue
         if x == 1:
             s += r.pick([" ARRAY JOIN ", " LEFT ARRAY JOIN "]) + ", ".join(
                 r.pick(["arr", "arr AS e", "[1, 2] AS q", "arrayEnumerate(arr) AS i", "m.keys AS k"])
                 for _ in range(1 + r.below(2)))
+            STATE["bare"] = False
             continue
         j = r.pick(JOINS)
-        s += " " + j + " " + table_expr(r, d)
+        s += " " + j + " " + table_expr(r, d, first=False)
         if "CROSS" in j or "PASTE" in j:
             continue
         if r.p(2, 3):
             s += " ON " + r.pick(["t.a = t2.a", "t1.id = t2.id AND t1.x > 0", "a = b", "t.ts >= t2.ts"])
         else:
             s += " USING " + r.pick(["(a)", "(a, b)", "a", "id, ts"])
+        STATE["bare"] = False
     return s
 
 
@@ -565,7 +579,7 @@ def select_tail(r, outfile=True, s_then_f=True, fmt_ok=True):
     return g() if ok else ""
 
 
-def select_core(r, d=0, simple=False):
+def select_core(r, d=0, simple=False, force_from=False):
     """SELECT ... without a statement-level tail"""
     p = []
     rich = not simple or r.p(1, 3)
@@ -583,9 +597,13 @@ def select_core(r, d=0, simple=False):
         s += " TOP " + r.pick(["3", "10", "5 WITH TIES"])
     p.append(s)
     p.append(", ".join(select_item(r, d + 1) for _ in range(1 + (r.below(4) if rich else r.below(2)))))
-    has_from = r.p(4, 5)
+    has_from = force_from or r.p(4, 5)
+    from_idx = -1
+    from_bare = False
     if has_from:
         p.append(from_clause(r, d + 1) if rich else "FROM " + table_expr(r, d + 1))
+        from_idx = len(p)
+        from_bare = STATE["bare"]
         if rich and r.p(1, 8):
             p.append("PREWHERE " + expr(r, d + 2, False))
     elif rich and r.p(1, 10):
@@ -599,21 +617,30 @@ def select_core(r, d=0, simple=False):
             p.append("ORDER BY " + col(r))
         if r.p(1, 5):
             p.append("LIMIT " + str(1 + r.below(9)))
+        STATE["bare"] = from_bare and from_idx == len(p)
         return " ".join(p)
     if r.p(1, 3):
         p.append(group_by(r, d))
         if r.p(1, 3):
             p.append("HAVING " + expr(r, d + 2, False))
-    if r.p(1, 10):
+    has_window = r.p(1, 10)
+    has_qualify = r.p(1, 12)
+    if has_qualify and not has_window:
+        p.append("QUALIFY " + expr(r, d + 2, False))
+    if has_window:
         p.append("WINDOW w AS (" + r.pick(["PARTITION BY a", "ORDER BY ts", "PARTITION BY a ORDER BY b DESC",
                                             "ORDER BY x ROWS BETWEEN 1 PRECEDING AND CURRENT ROW", ""]) + ")"
                  + (", w2 AS (PARTITION BY b)" if r.p(1, 3) else ""))
-    if r.p(1, 12):
+    if has_window and has_qualify:
+        # ClickHouse's order is WINDOW, QUALIFY, ORDER BY; the parser takes a QUALIFY that follows
+        # WINDOW only at the very end of the SELECT
         p.append("QUALIFY " + expr(r, d + 2, False))
-    if r.p(1, 3):
-        p.append(order_by(r, d))
-    if r.p(2, 5):
-        p.append(limit_clause(r))
+    else:
+        if r.p(1, 3):
+            p.append(order_by(r, d))
+        if r.p(2, 5):
+            p.append(limit_clause(r))
+    STATE["bare"] = from_bare and from_idx == len(p)
     return " ".join(x for x in p if x)
 
 
@@ -665,29 +692,37 @@ def gen_select(r):
     if r.p(1, 12):
         return deep_case(r)
     s = select_core(r, 0)
-    t = select_tail(r)
+    t = select_tail(r, outfile=not STATE["bare"])
     return s + (" " + t if t else "")
 
 
 def gen_setop(r):
     x = r.below(10)
-    first = select_core(r, 1, simple=not r.p(1, 3))
-    if r.p(1, 2) and not first.startswith("WITH"):
-        first = with_clause(r, 2) + " " + first      # WITH on the first member: inherited-WITH printers
-    if r.p(1, 6):
-        first = "(" + first + ")"
-    s = first
-    n = 1 + r.below(4)
     if x < 5:
         ops = ["UNION ALL", "UNION ALL", "UNION DISTINCT", "UNION"]
     elif x < 7:
         ops = ["INTERSECT", "EXCEPT", "INTERSECT DISTINCT", "EXCEPT DISTINCT"]
     else:
         ops = ["UNION ALL", "UNION DISTINCT", "UNION", "INTERSECT", "EXCEPT"]
+    maybe_setop = x >= 5
+    # (a member ending in `*` / COLUMNS(..) directly before EXCEPT would read as a column transformer)
+    first = select_core(r, 1, simple=not r.p(1, 3), force_from=maybe_setop)
+    if r.p(1, 2) and not first.startswith("WITH"):
+        first = with_clause(r, 2) + " " + first      # WITH on the first member: inherited-WITH printers
+    if first.startswith("WITH") and x >= 7:
+        # a statement that starts with WITH takes UNION before INTERSECT / EXCEPT only in parentheses
+        ops = r.pick([["UNION ALL", "UNION DISTINCT", "UNION"], ["INTERSECT", "EXCEPT"]])
+    first_paren = (not maybe_setop or x < 7) and r.p(1, 6)
+    if first_paren:
+        first = "(" + first + ")"
+    s = first
+    n = 1 + r.below(4)
     setop = False
     last_paren = False
+    bare = False
     for _ in range(n):
-        m = select_core(r, 1, simple=not r.p(1, 4))
+        m = select_core(r, 1, simple=not r.p(1, 4), force_from=maybe_setop)
+        bare = STATE["bare"]
         y = r.below(6)
         last_paren = y < 2
         if y == 0:
@@ -697,8 +732,562 @@ def gen_setop(r):
         op = r.pick(ops)
         setop = setop or op[0] in "IE"
         s += " " + op + " " + m
-    t = select_tail(r, outfile=not last_paren, s_then_f=not setop, fmt_ok=not (setop and last_paren))
+    t = select_tail(r, outfile=not last_paren and not bare, s_then_f=not setop,
+                    fmt_ok=not (setop and last_paren))
     return s + (" " + t if t else "")
+
+
+# ------------------------------------------------------------------------------------------
+# INSERT
+
+def gen_insert(r):
+    pre = ""
+    if r.p(1, 3):
+        pre = with_clause(r, 2) + " "            # WITH ... INSERT ... SELECT (inherited-WITH printers)
+    x = r.below(10)
+    if x == 0:
+        tgt = r.pick(["FUNCTION ", "TABLE FUNCTION "]) + r.pick(
+            ["file('a.csv', 'CSV', 'x UInt8')", "remote('h', db.t)", "s3('http://b/k', 'CSV')", "null('a UInt8')"])
+        if r.p(1, 3):
+            tgt += " PARTITION BY " + col(r)
+    else:
+        tgt = r.pick(["", "", "TABLE "]) + r.pick(["t", "db.t", "`my table`", "t2"])
+    cols = ""
+    y = r.below(8)
+    if y < 3:
+        cols = " (" + ", ".join(ident(r) for _ in range(1 + r.below(3))) + ")"
+    elif y == 3:
+        cols = r.pick([" (*)", " (* EXCEPT (a))", " (COLUMNS('a'))", " (* EXCEPT a)"])
+    s = pre + "INSERT INTO " + tgt + cols
+    if not pre and r.p(1, 10):
+        s += " " + settings_clause(r)
+    z = r.below(14)
+    if z == 0 and not pre:
+        return s + " FORMAT " + r.pick(FORMATS)
+    if z == 1 and not pre:
+        return s + " FROM INFILE 'f.csv'" + r.pick(["", " COMPRESSION 'gzip'"]) + " FORMAT CSV"
+    if z < 5:
+        body = select_with_union(r, 1, simple=True)
+    elif z < 7:
+        body = gen_setop(Rng(r.next()))
+        while body.startswith("("):
+            body = gen_setop(Rng(r.next()))
+        return s + " " + body
+    else:
+        body = select_core(r, 1, simple=not r.p(1, 3))
+    t = select_tail(r, outfile=False)
+    return s + " " + body + (" " + t if t else "")
+
+
+# ------------------------------------------------------------------------------------------
+# CREATE
+
+def column_decl(r):
+    s = ident(r) + " " + data_type(r, ddl=True)
+    if r.p(1, 12):
+        return s + " STATISTICS(" + r.pick(["tdigest", "uniq"]) + ")"
+    x = r.below(12)
+    if x == 0:
+        s += r.pick([" NULL", " NOT NULL"])
+    if r.p(1, 4):
+        s += " " + r.pick(["DEFAULT", "MATERIALIZED", "ALIAS"]) + " " + expr(r, 3, False)
+    elif r.p(1, 20):
+        s += " EPHEMERAL"
+    if r.p(1, 6):
+        s += " CODEC(" + ", ".join(r.pick(["ZSTD(3)", "LZ4", "Delta", "DoubleDelta", "NONE", "LZ4HC(9)", "T64",
+                                            "Gorilla", "Delta(4)"]) for _ in range(1 + r.below(2))) + ")"
+    if r.p(1, 8):
+        s += " TTL " + r.pick(["ts", "d"]) + " + INTERVAL " + str(1 + r.below(9)) + " " + r.pick(["DAY", "MONTH"])
+    if r.p(1, 8):
+        s += " COMMENT " + string_lit(r)
+    if r.p(1, 16):
+        s += " SETTINGS (max_compress_block_size = 1)"
+    return s
+
+
+def columns_def(r):
+    items = [column_decl(r) for _ in range(1 + r.below(4))]
+    if r.p(1, 5):
+        items.append("INDEX " + r.pick(["i", "idx1"]) + " " + r.pick(["a", "a + 1", "(a, b)", "lower(name)"])
+                     + " TYPE " + r.pick(["minmax", "set(100)", "bloom_filter(0.01)", "ngrambf_v1(3, 256, 2, 0)",
+                                          "tokenbf_v1(256, 2, 0)"]) + r.pick(["", " GRANULARITY 4"]))
+    if r.p(1, 8):
+        items.append("CONSTRAINT " + r.pick(["c1", "chk"]) + r.pick([" CHECK ", " ASSUME "]) + expr(r, 3, False))
+    if r.p(1, 8):
+        items.append("PROJECTION " + r.pick(["p", "proj"]) + " (SELECT " + r.pick(["a, count() GROUP BY a", "* ORDER BY a", "sum(b)", "a, b ORDER BY b", "a, sum(b) GROUP BY a"])
+                     + ")")
+    if r.p(1, 12):
+        items.append("PRIMARY KEY (" + r.pick(["a", "a, b"]) + ")")
+    return "(" + ", ".join(items) + ")"
+
+
+def ttl_list(r):
+    elems = []
+    for _ in range(1 + r.below(3)):
+        e = r.pick(["ts", "d", "toDate(ts)"]) + " + INTERVAL " + str(1 + r.below(9)) + " " + r.pick(["DAY", "MONTH", "YEAR"])
+        x = r.below(8)
+        if x == 0:
+            e += " DELETE"
+        elif x == 1:
+            e += " TO DISK 'cold'"
+        elif x == 2:
+            e += " TO VOLUME 'slow'"
+        elif x == 3:
+            e += " RECOMPRESS CODEC(" + r.pick(["ZSTD(1)", "LZ4HC(10)", "ZSTD(17), Delta"]) + ")"
+        elif x == 4:
+            e += " GROUP BY a SET b = max(b)" + r.pick(["", ", c = any(c)"])
+        elif x == 5:
+            e += " DELETE WHERE " + expr(r, 3, False)
+        elems.append(e)
+    return ", ".join(elems)
+
+
+def engine_clause(r, full=True):
+    e = r.pick(["Memory", "MergeTree", "MergeTree()", "ReplacingMergeTree(ver)", "SummingMergeTree",
+                "ReplicatedMergeTree('/p/{shard}', '{replica}')", "Log", "TinyLog", "Null",
+                "Distributed(c, db, t, rand())", "AggregatingMergeTree", "CollapsingMergeTree(sign)",
+                "Buffer(db, t, 16, 10, 100, 10000, 1000000, 10000000, 100000000)", "Kafka", "File(CSV)",
+                "URL('http://h/x', CSV)", "Merge(db, '^t')", "Join(ANY, LEFT, a)", "Set", "EmbeddedRocksDB"])
+    s = "ENGINE = " + e
+    if "MergeTree" in e and full:
+        if r.p(1, 3):
+            s += " PARTITION BY " + r.pick(["toYYYYMM(ts)", "a", "(a, toDate(ts))", "tuple()"])
+        s += " ORDER BY " + r.pick(["a", "(a, b)", "tuple()", "(a, toDate(ts), b)", "a DESC" if False else "id"])
+        if r.p(1, 5):
+            s += " PRIMARY KEY " + r.pick(["a", "(a)", "id"])
+        if r.p(1, 8):
+            s += " SAMPLE BY " + r.pick(["a", "intHash32(id)"])
+        if r.p(1, 5):
+            s += " TTL " + ttl_list(r)
+        if r.p(1, 4):
+            s += " SETTINGS index_granularity = " + r.pick(["8192", "1024"]) + r.pick(["", ", min_bytes_for_wide_part = 0"])
+    elif e == "Kafka":
+        s += " SETTINGS kafka_broker_list = 'h:9092', kafka_topic_list = 't', kafka_format = 'JSONEachRow'"
+    return s
+
+
+def gen_create(r):
+    x = r.below(40)
+    ine = r.pick(["", "", "IF NOT EXISTS "])
+    oc = r.pick(["", "", "", " ON CLUSTER c", " ON CLUSTER test_cluster"])
+    tname = r.pick(["t", "db.t", "`my table`", "t_new"])
+    if x < 12:
+        head = r.pick(["CREATE TABLE ", "CREATE TABLE ", "CREATE OR REPLACE TABLE ", "CREATE TEMPORARY TABLE ",
+                       "ATTACH TABLE ", "REPLACE TABLE "])
+        if head.startswith(("CREATE OR", "REPLACE")):
+            ine = ""
+        if head.startswith("ATTACH"):
+            oc = ""
+        s = head + ine + tname + oc
+        if r.p(1, 12):
+            s += " UUID '00000000-0000-0000-0000-000000000001'"
+        y = r.below(10)
+        if head.startswith("ATTACH") and y < 3:
+            y = 5
+        if y == 0:
+            return s + " AS " + r.pick(["t2", "db.t2"]) + r.pick(["", " " + engine_clause(r)])
+        if y == 1:
+            return s + " AS " + r.pick(["numbers(10)", "remote('h', db.t)", "file('a.csv')"])
+        if y == 2:
+            return s + " " + engine_clause(r) + " AS " + select_with_union(r, 1, simple=True)
+        s += " " + columns_def(r) + " " + engine_clause(r)
+        if y == 3:
+            s += " AS " + select_core(r, 1, simple=True)
+        elif r.p(1, 6):
+            s += " COMMENT " + string_lit(r)
+        return s
+    if x < 17:
+        s = r.pick(["CREATE VIEW ", "CREATE OR REPLACE VIEW ", "CREATE VIEW IF NOT EXISTS "]) + r.pick(["v", "db.v"]) + oc
+        if r.p(1, 6):
+            s += " (a UInt8, b String)"
+        body = r.pick([lambda: select_core(r, 1), lambda: select_with_union(r, 1, simple=True),
+                       lambda: "(" + select_core(r, 1, True) + ")", lambda: gen_setop(Rng(r.next()))])()
+        return s + " AS " + body
+    if x < 22:
+        s = "CREATE MATERIALIZED VIEW " + ine + r.pick(["mv", "db.mv"]) + oc
+        y = r.below(8)
+        if y == 0:
+            s += " REFRESH " + r.pick(["EVERY 1 HOUR", "AFTER 10 MINUTE", "EVERY 30 MINUTE"]) \
+                 + r.pick(["", " APPEND"]) + " TO dst"
+        elif y < 4:
+            s += " TO " + r.pick(["dst", "db.dst"]) + r.pick(["", " (a UInt8, b String)"])
+        else:
+            s += " " + engine_clause(r) + r.pick(["", " POPULATE"])
+        return s + " AS " + select_core(r, 1, simple=not r.p(1, 3), force_from=True)
+    if x < 24:
+        return "CREATE WINDOW VIEW " + ine + "wv TO dst AS SELECT count() FROM t GROUP BY " \
+               + r.pick(["tumble", "hop"]) + "(ts, INTERVAL 1 MINUTE" + r.pick(["", ", INTERVAL 5 MINUTE"]) + ")"
+    if x < 27:
+        s = "CREATE DATABASE " + ine + r.pick(["db", "`my db`", "d2"])
+        y = r.below(5)
+        if y == 0:
+            s += oc
+        elif y == 1:
+            s += " ENGINE = " + r.pick(["Atomic", "Memory", "Lazy(10)", "Replicated('/p', 's', 'r')",
+                                         "MySQL('h:3306', 'd', 'u', 'p')", "Ordinary"])
+        elif y == 2:
+            s += " ENGINE = Atomic"
+        return s
+    if x < 29:
+        return r.pick(["CREATE FUNCTION ", "CREATE OR REPLACE FUNCTION ", "CREATE FUNCTION IF NOT EXISTS "]) \
+            + r.pick(["f", "my_func"]) + oc + " AS " + r.pick(["x -> ", "(x, y) -> ", "() -> ", "(x) -> "]) + expr(r, 2, False)
+    if x < 32:
+        s = "CREATE USER " + ine + r.pick(["u", "u1, u2", "'user@host'", "`my user`"]) + oc
+        s += r.pick(["", " NOT IDENTIFIED", " IDENTIFIED BY 'p'", " IDENTIFIED WITH sha256_password BY 'p'",
+                     " IDENTIFIED WITH plaintext_password BY 'p'", " IDENTIFIED WITH no_password",
+                     " IDENTIFIED WITH double_sha1_hash BY 'abcd'", " IDENTIFIED WITH ssh_key BY KEY 'k' TYPE 'ssh-rsa'",
+                     " IDENTIFIED WITH bcrypt_password BY 'p'", " IDENTIFIED WITH ldap SERVER 's'",
+                     " IDENTIFIED WITH kerberos REALM 'r'"])
+        s += r.pick(["", " HOST LOCAL", " HOST IP '127.0.0.1'", " HOST ANY", " HOST NAME 'h'", " HOST LIKE '%.x'"])
+        s += r.pick(["", " VALID UNTIL '2030-01-01'"])
+        s += r.pick(["", " DEFAULT ROLE r", " DEFAULT ROLE ALL", " DEFAULT ROLE r1, r2"])
+        s += r.pick(["", " DEFAULT DATABASE db"])
+        s += r.pick(["", " GRANTEES ANY EXCEPT u2", " GRANTEES NONE"])
+        s += r.pick(["", " SETTINGS max_memory_usage = 1", " SETTINGS PROFILE 'p'"])
+        return s
+    if x < 34:
+        return "CREATE ROLE " + ine + r.pick(["r", "r1, r2"]) + oc + r.pick(["", " SETTINGS max_threads = 1"])
+    if x == 34:
+        return r.pick(["CREATE ROW POLICY ", "CREATE POLICY "]) + ine + "p ON " + r.pick(["t", "db.t", "db.*"]) \
+            + r.pick(["", " FOR SELECT"]) + r.pick(["", " AS RESTRICTIVE", " AS PERMISSIVE"]) \
+            + " USING " + expr(r, 3, False) + r.pick(["", " TO r", " TO ALL", " TO ALL EXCEPT u"])
+    if x == 35:
+        return "CREATE QUOTA " + ine + "q" + r.pick(["", " KEYED BY user_name", " KEYED BY ip_address"]) \
+            + " FOR " + r.pick(["", "RANDOMIZED "]) + "INTERVAL 1 " + r.pick(["HOUR", "DAY"]) + " MAX " \
+            + r.pick(["queries = 10", "errors = 1, result_rows = 2", "execution_time = 5"]) + r.pick(["", " TO r", " TO ALL"])
+    if x == 36:
+        return r.pick(["CREATE SETTINGS PROFILE ", "CREATE PROFILE "]) + ine + "p SETTINGS " \
+            + r.pick(["max_threads = 1", "a = 1 MIN 0 MAX 2 READONLY", "INHERIT 'default'",
+                      "max_memory_usage = 100 WRITABLE, INHERIT 'default'"]) + r.pick(["", " TO r"])
+    if x == 37:
+        s = r.pick(["CREATE DICTIONARY ", "CREATE OR REPLACE DICTIONARY ", "CREATE DICTIONARY IF NOT EXISTS "]) \
+            + r.pick(["d", "db.d"]) + oc
+        attrs = ["id UInt64"] + [r.pick(["v String DEFAULT ''", "w UInt8 EXPRESSION toUInt8(1)", "p UInt64 HIERARCHICAL",
+                                         "q UInt8 DEFAULT 0 INJECTIVE", "n Nullable(String) DEFAULT NULL",
+                                         "o UInt8 IS_OBJECT_ID"]) for _ in range(r.below(4))]
+        s += " (" + ", ".join(attrs) + ") PRIMARY KEY " + r.pick(["id", "id, v", "(id)"])
+        s += " SOURCE(" + r.pick(["CLICKHOUSE(TABLE 't' DB 'db')", "HTTP(URL 'http://x' FORMAT 'TSV')", "NULL()",
+                                   "FILE(PATH '/f.tsv' FORMAT 'TabSeparated')", "MYSQL(PORT 3306 USER 'u' PASSWORD 'p' DB 'd' TABLE 't')",
+                                   "CLICKHOUSE(QUERY 'SELECT 1')", "EXECUTABLE(COMMAND 'cat' FORMAT 'TSV')"]) + ")"
+        s += " LAYOUT(" + r.pick(["FLAT()", "HASHED()", "COMPLEX_KEY_HASHED(SHARDS 4)", "RANGE_HASHED()",
+                                   "CACHE(SIZE_IN_CELLS 1000)", "DIRECT()", "IP_TRIE", "HASHED_ARRAY()",
+                                   "SPARSE_HASHED()", "FLAT(INITIAL_ARRAY_SIZE 10 MAX_ARRAY_SIZE 100)"]) + ")"
+        s += " LIFETIME(" + r.pick(["0", "300", "MIN 0 MAX 10"]) + ")"
+        if r.p(1, 5):
+            s += " RANGE(MIN a MAX b)"
+        if r.p(1, 6):
+            s += " SETTINGS(format_csv_allow_single_quotes = 0)"
+        if r.p(1, 6):
+            s += " COMMENT " + string_lit(r)
+        return s
+    if x == 38:
+        return r.pick(["CREATE INDEX ", "CREATE INDEX IF NOT EXISTS ", "CREATE UNIQUE INDEX "]) + "i ON " + r.pick(["t", "db.t"]) \
+            + " (" + r.pick(["a", "a + 1, b", "lower(name)"]) + ")" + r.pick(["", " TYPE minmax", " TYPE set(100)",
+                                                                                 " TYPE bloom_filter GRANULARITY 1"])
+    return r.pick(["CREATE NAMED COLLECTION nc AS a = 1, b = 's' NOT OVERRIDABLE",
+                   "CREATE NAMED COLLECTION IF NOT EXISTS nc ON CLUSTER c AS k = 'v' OVERRIDABLE",
+                   "CREATE RESOURCE res (WRITE DISK d, READ DISK d)", "CREATE RESOURCE res (READ ANY DISK)",
+                   "CREATE WORKLOAD w IN all SETTINGS weight = 3", "CREATE WORKLOAD all",
+                   "CREATE OR REPLACE WORKLOAD w IN all SETTINGS max_io_requests = 10 FOR res"])
+
+
+# ------------------------------------------------------------------------------------------
+# ALTER
+
+def partition_expr(r):
+    return r.pick(["202001", "'2020-01-01'", "ID '202001'", "ID 123", "ID 'all'", "(1, 'a')", "tuple()", "ALL",
+                   "toYYYYMM(today())", "{p:String}", "1", "(2020, 1)", "tuple(1, 2)", "'a'", "ID '1-2'"])
+
+
+def alter_command(r):
+    c = lambda: r.pick(["c", "col", "`a b`", "`n.x`", "x1"])
+    ine = r.pick(["", "", "IF NOT EXISTS "])
+    ie = r.pick(["", "", "IF EXISTS "])
+    inpart = r.pick(["", "", " IN PARTITION " + r.pick(["1", "202001", "'x'", "(1, 2)"])])
+    x = r.below(64)
+    forms = [
+        lambda: "ADD COLUMN " + ine + c() + " " + data_type(r, ddl=True)
+                + r.pick(["", " DEFAULT " + expr(r, 3, False), " MATERIALIZED " + atom(r), " ALIAS a + 1", " CODEC(ZSTD)",
+                          " COMMENT 'x'"]) + r.pick(["", "", " AFTER a"]),
+        lambda: "DROP COLUMN " + ie + c(),
+        lambda: "CLEAR COLUMN " + ie + c() + inpart,
+        lambda: "RENAME COLUMN " + ie + c() + " TO " + r.pick(["b2", "`new name`"]),
+        lambda: "MODIFY COLUMN " + ie + c() + " " + data_type(r, ddl=True)
+                + r.pick(["", " DEFAULT " + atom(r), " CODEC(LZ4)", " COMMENT 'c'"]) + r.pick(["", "", " AFTER b"]),
+        lambda: "MODIFY COLUMN " + c() + " REMOVE " + r.pick(["DEFAULT", "TTL", "CODEC", "COMMENT", "MATERIALIZED", "ALIAS"]),
+        lambda: "MODIFY COLUMN " + c() + r.pick([" COMMENT 'x'", " CODEC(ZSTD(3))", " DEFAULT 1"]),
+        lambda: "MODIFY COLUMN " + c() + " MODIFY SETTING max_compress_block_size = 1",
+        lambda: "MODIFY COLUMN " + c() + " RESET SETTING max_compress_block_size",
+        lambda: "COMMENT COLUMN " + ie + c() + " " + string_lit(r),
+        lambda: "MATERIALIZE COLUMN " + c() + inpart,
+        lambda: "MODIFY ORDER BY " + r.pick(["(a, b)", "a", "(a, b, c)"]),
+        lambda: "MODIFY SAMPLE BY " + r.pick(["a", "intHash32(id)"]),
+        lambda: "REMOVE SAMPLE BY",
+        lambda: "MODIFY TTL " + ttl_list(r),
+        lambda: "MODIFY TTL d + INTERVAL 1 DAY RECOMPRESS CODEC(" + r.pick(["ZSTD(1)", "LZ4HC(10)", "ZSTD(17), Delta"]) + ")",
+        lambda: "REMOVE TTL",
+        lambda: "MATERIALIZE TTL",
+        lambda: "MODIFY SETTING " + ", ".join(r.pick(SETTINGS) + " = " + r.pick(["1", "'x'", "0"]) for _ in range(1 + r.below(2))),
+        lambda: "RESET SETTING " + ", ".join(r.pick(SETTINGS) for _ in range(1 + r.below(2))),
+        lambda: "MODIFY COMMENT " + string_lit(r),
+        lambda: "MODIFY QUERY " + select_core(r, 2, simple=True),
+        lambda: "DROP PARTITION " + partition_expr(r),
+        lambda: "DROP PART 'all_1_1_0'",
+        lambda: "DROP DETACHED PARTITION " + r.pick(["202001", "tuple()", "ALL"]),
+        lambda: "DROP DETACHED PARTITION " + r.pick(["1", "'x'", "(1, 2)"]),
+        lambda: "DETACH PARTITION " + partition_expr(r),
+        lambda: "DETACH PART 'all_2_2_0'",
+        lambda: "ATTACH PARTITION " + partition_expr(r),
+        lambda: "ATTACH PART 'all_2_2_0'",
+        lambda: "ATTACH PARTITION " + r.pick(["1", "ID '1'", "ALL", "'2020-01-01'", "tuple()"]) + " FROM t2",
+        lambda: "REPLACE PARTITION " + r.pick(["1", "ID '1'", "'x'", "tuple()"]) + " FROM t2",
+        lambda: "MOVE PARTITION " + r.pick(["1", "ID '1'", "'x'"]) + " TO " + r.pick(["TABLE t2", "TABLE db.t2", "DISK 'd'", "VOLUME 'v'"]),
+        lambda: "FREEZE",
+        lambda: "FREEZE PARTITION " + partition_expr(r),
+        lambda: "FETCH PARTITION " + r.pick(["1", "ID '1'", "'x'"]) + " FROM '/clickhouse/tables/t'",
+        lambda: "UPDATE " + ", ".join(r.pick(COLS) + " = " + expr(r, 3, False) for _ in range(1 + r.below(2)))
+                + inpart + " WHERE " + expr(r, 3, False),
+        lambda: "DELETE WHERE " + expr(r, 2, True),
+        lambda: "ADD INDEX " + r.pick(["i", "idx"]) + " " + r.pick(["a", "(a, b)", "lower(name)", "a + 1"])
+                + " TYPE " + r.pick(["minmax", "set(10)", "bloom_filter(0.01)", "ngrambf_v1(3, 256, 2, 0)"])
+                + r.pick(["", " GRANULARITY 1", " GRANULARITY 4"]),
+        lambda: "DROP INDEX " + ie + "i",
+        lambda: "MATERIALIZE INDEX i" + inpart,
+        lambda: "CLEAR INDEX i" + inpart,
+        lambda: "ADD PROJECTION " + r.pick(["p", "proj"]) + " (SELECT " + r.pick(["a, count() GROUP BY a", "* ORDER BY a",
+                                                                                   "a, sum(b) GROUP BY a", "a, b ORDER BY b"]) + ")",
+        lambda: "DROP PROJECTION " + ie + "p",
+        lambda: "MATERIALIZE PROJECTION p",
+        lambda: "CLEAR PROJECTION p",
+        lambda: "ADD CONSTRAINT " + r.pick(["c1", "chk"]) + " CHECK " + expr(r, 3, False),
+        lambda: "ADD CONSTRAINT c2 ASSUME a > 0",
+        lambda: "DROP CONSTRAINT c1",
+        lambda: "ADD STATISTICS " + r.pick(["a", "a, b"]) + " TYPE " + r.pick(["tdigest", "uniq", "tdigest, uniq"]),
+        lambda: "DROP STATISTICS " + r.pick(["a", "a, b"]),
+        lambda: "MODIFY STATISTICS a TYPE uniq",
+        lambda: "MATERIALIZE STATISTICS a",
+        lambda: "CLEAR STATISTICS a",
+        lambda: "APPLY DELETED MASK" + inpart,
+        lambda: "DROP PARTITION ID " + r.pick(["123", "'123'", "'all'", "20200101", "'a-b'"]),
+        lambda: "DETACH PARTITION ID " + r.pick(["123", "'123'", "7"]),
+        lambda: "ATTACH PARTITION ID " + r.pick(["'123'", "42"]),
+        lambda: "FREEZE PARTITION ID " + r.pick(["'123'", "99"]),
+        lambda: "DROP PARTITION ALL",
+        lambda: "DETACH PARTITION ALL",
+        lambda: "DROP PARTITION (" + ", ".join(literal(r) for _ in range(1 + r.below(3))) + ")",
+        lambda: "MODIFY TTL d + INTERVAL 1 MONTH RECOMPRESS CODEC(ZSTD(3)), d + INTERVAL 1 YEAR DELETE",
+        lambda: "MATERIALIZE COLUMN " + c(),
+    ]
+    return forms[x % len(forms)]()
+
+
+def gen_alter(r):
+    x = r.below(24)
+    if x == 0:
+        return "ALTER USER " + r.pick(["u", "IF EXISTS u", "u1, u2"]) + r.pick(
+            [" IDENTIFIED BY 'p'", " RENAME TO v", " DEFAULT ROLE r", " SETTINGS max_threads = 1", " HOST ANY",
+             " IDENTIFIED WITH sha256_password BY 'p'", " DEFAULT ROLE ALL EXCEPT r", " NOT IDENTIFIED"])
+    if x == 1:
+        return r.pick(["ALTER ROLE r RENAME TO r2", "ALTER ROLE r SETTINGS max_threads = 1", "ALTER ROLE IF EXISTS r RENAME TO q",
+                       "ALTER ROW POLICY p ON t USING 1", "ALTER POLICY p ON t RENAME TO q",
+                       "ALTER POLICY p ON db.t FOR SELECT USING a = 1 TO r",
+                       "ALTER SETTINGS PROFILE p SETTINGS max_threads = 1", "ALTER PROFILE p RENAME TO q",
+                       "ALTER NAMED COLLECTION nc SET a = 1 DELETE b", "ALTER NAMED COLLECTION nc SET a = 1, b = 'x'",
+                       "ALTER NAMED COLLECTION nc DELETE a"])
+    s = r.pick(["ALTER TABLE ", "ALTER TABLE ", "ALTER TABLE ", "ALTER TEMPORARY TABLE "]) + r.pick(["t", "db.t", "`my table`"])
+    if s.startswith("ALTER TABLE") and r.p(1, 6):
+        s += " ON CLUSTER c"
+    n = r.pick([1, 1, 1, 2, 3])
+    cmds = [alter_command(r) for _ in range(n)]
+    # commands that end in a comma list (or a SELECT) swallow what follows: at most one, and last
+    greedy = lambda c: c.startswith(("MODIFY QUERY", "UPDATE", "DELETE", "MODIFY SETTING", "RESET SETTING",
+                                     "MODIFY TTL", "MATERIALIZE TTL", "REMOVE")) or "STATISTICS" in c or "SETTING" in c
+    g = [c for c in cmds if greedy(c)]
+    cmds = [c for c in cmds if not greedy(c)] + g[:1]
+    if len(cmds) > 1 and r.p(1, 6):
+        s += " " + ", ".join("(" + c + ")" for c in cmds)
+    else:
+        s += " " + ", ".join(cmds)
+    if r.p(1, 10):
+        s += " SETTINGS mutations_sync = 2"
+    return s
+
+
+# ------------------------------------------------------------------------------------------
+# utility statements
+
+def tbl(r):
+    return r.pick(["t", "db.t", "`my table`", "t2", "db.events"])
+
+
+def explain_stmt(r):
+    kind = r.pick(["", "", "AST ", "AST ", "AST ", "SYNTAX ", "PLAN ", "PIPELINE ", "ESTIMATE ", "QUERY TREE "])
+    opts = ""
+    if kind in ("", "PLAN ") and r.p(1, 3):
+        opts = r.pick(["header = 1 ", "header = 1, actions = 1 ", "json = 1 ", "indexes = 1 ", "description = 0 "])
+    elif kind == "PIPELINE " and r.p(1, 3):
+        opts = r.pick(["graph = 1 ", "header = 1 ", "compact = 0 "])
+    elif kind == "QUERY TREE " and r.p(1, 3):
+        opts = r.pick(["run_passes = 0 ", "dump_ast = 1 "])
+    x = r.below(20)
+    if kind == "AST " and x < 10:
+        inner = r.pick([
+            lambda: "DESCRIBE TABLE " + r.pick(["numbers(1)", "t", "remote('h', db.t)", "file('a.csv', 'CSV', 'x UInt8')", "(SELECT 1)"]),
+            lambda: "BACKUP TABLE " + tbl(r) + " TO " + r.pick(["Disk('backups', '1.zip')", "File('/p')", "S3('u', 'k', 's')"]),
+            lambda: "RESTORE TABLE " + tbl(r) + " FROM Disk('backups', '1.zip')",
+            lambda: "BACKUP DATABASE db TO Disk('b', 'x')",
+            lambda: gen_insert(Rng(r.next())),
+            lambda: gen_create(Rng(r.next())),
+            lambda: gen_alter(Rng(r.next())),
+            lambda: r.pick(["SHOW TABLES", "DROP TABLE t", "SYSTEM FLUSH LOGS", "OPTIMIZE TABLE t FINAL", "USE db",
+                            "SET a = 1", "TRUNCATE TABLE t", "EXISTS TABLE t", "SHOW CREATE TABLE t",
+                            "RENAME TABLE a TO b", "GRANT SELECT ON t TO u", "KILL QUERY WHERE 1",
+                            "CHECK TABLE t", "DETACH TABLE t", "EXPLAIN SELECT 1", "EXPLAIN AST SELECT 1"]),
+        ])()
+        return "EXPLAIN AST " + inner
+    if x < 14:
+        body = select_core(r, 1, simple=not r.p(1, 3))
+    elif x < 17:
+        body = select_with_union(r, 1, simple=True)
+    elif x == 17:
+        body = "(" + select_core(r, 1, True) + ")"
+    else:
+        body = gen_setop(Rng(r.next()))
+        return "EXPLAIN " + kind + opts + body
+    t = select_tail(r, outfile=not STATE["bare"] and x < 14)
+    return "EXPLAIN " + kind + opts + body + (" " + t if t else "")
+
+
+def gen_utility(r):
+    x = r.below(60)
+    like = lambda: r.pick(["", "", " LIKE '%x%'", " NOT LIKE 'a'", " ILIKE 'A%'"])
+    oc = r.pick(["", "", "", " ON CLUSTER c"])
+    ie = r.pick(["", "", "IF EXISTS "])
+    if x < 10:
+        return explain_stmt(r)
+    if x < 12:
+        return "SELECT * FROM (" + explain_stmt(r).split(" FORMAT ")[0].split(" SETTINGS ")[0].split(" INTO OUTFILE")[0] + ")" \
+            + r.pick(["", " WHERE explain LIKE '%x%'", " LIMIT 5"])
+    if x < 18:
+        return r.pick([
+            lambda: "SHOW TABLES" + r.pick(["", " FROM db"]) + like() + r.pick(["", " LIMIT 3"]),
+            lambda: "SHOW TEMPORARY TABLES",
+            lambda: "SHOW DATABASES" + like(),
+            lambda: "SHOW DICTIONARIES" + r.pick(["", " FROM db"]) + like(),
+            lambda: "SHOW CREATE " + r.pick(["TABLE ", "", "VIEW ", "DICTIONARY ", "TEMPORARY TABLE "]) + tbl(r),
+            lambda: "SHOW CREATE DATABASE db",
+            lambda: "SHOW CREATE " + r.pick(["USER u", "ROLE r", "QUOTA q", "ROW POLICY p ON t", "SETTINGS PROFILE p"]),
+            lambda: "SHOW " + r.pick(["", "FULL "]) + "COLUMNS FROM t" + r.pick(["", " FROM db"]) + like(),
+            lambda: "SHOW " + r.pick(["INDEX", "INDEXES", "KEYS"]) + " FROM " + tbl(r),
+            lambda: "SHOW " + r.pick(["PROCESSLIST", "GRANTS", "GRANTS FOR u", "USERS", "ROLES", "PROFILES", "POLICIES",
+                                      "QUOTAS", "QUOTA", "ACCESS", "CLUSTERS", "ENGINES", "FUNCTIONS", "MERGES",
+                                      "PRIVILEGES", "FUNCTIONS LIKE 'a%'"]),
+            lambda: "SHOW " + r.pick(["", "CHANGED "]) + "SETTINGS " + r.pick(["LIKE 'max%'", "ILIKE '%x%'"]),
+            lambda: "SHOW TABLE " + tbl(r),
+            lambda: "SHOW TABLES FORMAT " + r.pick(FORMATS),
+            lambda: "SHOW CREATE TABLE t FORMAT TSVRaw",
+            lambda: "SHOW TABLES WHERE name = 'a'",
+        ])()
+    if x < 22:
+        what = r.pick(["t", "db.t", "TABLE t", "TABLE db.t", "(SELECT 1, 2)", "TABLE (SELECT a FROM t)", "numbers(10)",
+                       "TABLE remote('h', db.t)", "TABLE file('a.csv', 'CSV', 'x UInt8')", "TABLE s3('u', 'CSV')",
+                       "url('http://h/x', CSV, 'a UInt8')", "TABLE numbers(1, 2)", "TABLE merge('db', '^t')"])
+        return r.pick(["DESCRIBE ", "DESC ", "DESCRIBE "]) + what + r.pick(
+            ["", "", " FORMAT JSON", " SETTINGS describe_compact_output = 1", " FORMAT Null"])
+    if x < 24:
+        return r.pick(["USE db", "USE DATABASE db", "USE `my db`", "SET max_threads = 1", "SET a = 1, b = 'x'",
+                       "SET param_p = 1", "SET DEFAULT ROLE r TO u", "SET DEFAULT ROLE ALL TO u1, u2",
+                       "SET TRANSACTION SNAPSHOT 1", "SET allow_x = true", "SET a = [1, 2]", "SET a = (1, 2)",
+                       "SET a = -1", "SET a = 1.5", "SET a = DEFAULT", "SET a = NULL", "SET a = {'x': 1}",
+                       "BEGIN TRANSACTION", "COMMIT", "ROLLBACK"])
+    if x < 28:
+        return "SYSTEM " + r.pick([
+            "FLUSH LOGS", "RELOAD DICTIONARIES", "RELOAD DICTIONARY db.d", "DROP DNS CACHE", "DROP MARK CACHE",
+            "DROP UNCOMPRESSED CACHE", "STOP MERGES", "STOP MERGES db.t", "START MERGES t", "STOP TTL MERGES",
+            "STOP FETCHES t", "STOP REPLICATED SENDS", "SYNC REPLICA db.t", "SYNC REPLICA t STRICT", "RESTART REPLICA t",
+            "RESTART REPLICAS", "FLUSH DISTRIBUTED db.t", "STOP DISTRIBUTED SENDS t", "RELOAD CONFIG", "SHUTDOWN", "KILL",
+            "FLUSH LOGS ON CLUSTER c", "WAIT LOADING PARTS t", "ENABLE FAILPOINT fp", "SYNC FILE CACHE", "RELOAD FUNCTIONS",
+            "DROP QUERY CACHE", "STOP MOVES", "START FETCHES", "START REPLICATION QUEUES t", "DROP COMPILED EXPRESSION CACHE"])
+    if x < 31:
+        s = "OPTIMIZE TABLE " + tbl(r) + r.pick(["", "", " ON CLUSTER c"])
+        s += r.pick(["", "", " PARTITION 1", " PARTITION ID '1'", " PARTITION tuple()", " PARTITION '2020-01-01'"])
+        s += r.pick(["", " FINAL", " FINAL DEDUPLICATE", " DEDUPLICATE", " FINAL CLEANUP"])
+        return s + r.pick(["", "", " SETTINGS optimize_throw_if_noop = 1"])
+    if x < 33:
+        return r.pick(["TRUNCATE TABLE " + ie + tbl(r) + oc, "TRUNCATE " + tbl(r), "TRUNCATE TEMPORARY TABLE t",
+                       "TRUNCATE DATABASE db", "TRUNCATE TABLE t SETTINGS a = 1"])
+    if x < 36:
+        return r.pick(["RENAME TABLE a TO b", "RENAME TABLE a TO b, c TO d", "RENAME TABLE db.a TO db.b ON CLUSTER c",
+                       "RENAME DATABASE a TO b", "RENAME DICTIONARY a TO b", "EXCHANGE TABLES a AND b",
+                       "EXCHANGE TABLES db.a AND db.b ON CLUSTER c", "EXCHANGE DICTIONARIES a AND b",
+                       "RENAME TABLE `x y` TO `z w`"])
+    if x < 40:
+        priv = r.pick(["SELECT", "SELECT(a, b), INSERT", "ALL", "ALTER UPDATE, ALTER DELETE", "CREATE TEMPORARY TABLE",
+                       "SHOW TABLES, dictGet", "INSERT", "DROP TABLE", "CURRENT GRANTS"])
+        on = r.pick(["db.t", "db.*", "*.*", "t"])
+        y = r.below(8)
+        if y == 0:
+            return "GRANT " + r.pick(["r", "r1, r2"]) + " TO " + r.pick(["u", "u1, u2"]) + r.pick(["", " WITH ADMIN OPTION"])
+        if y == 1:
+            return "REVOKE " + r.pick(["r FROM u", "ADMIN OPTION FOR r FROM u", "GRANT OPTION FOR SELECT ON t FROM u",
+                                       "ON CLUSTER c SELECT ON t FROM ALL EXCEPT u"])
+        if y < 5:
+            return "GRANT " + r.pick(["", "", "ON CLUSTER c "]) + priv + " ON " + on + " TO " + r.pick(["u", "u, r", "r"]) \
+                + r.pick(["", "", " WITH GRANT OPTION", " WITH REPLACE OPTION"])
+        return "REVOKE " + priv.replace("CURRENT GRANTS", "ALL") + " ON " + on + " FROM " + r.pick(["u", "u1, u2", "ALL"])
+    if x < 42:
+        return r.pick(["KILL QUERY WHERE query_id = 'x'", "KILL QUERY WHERE 1 ASYNC", "KILL QUERY WHERE 1 TEST",
+                       "KILL QUERY WHERE user = 'u' SYNC", "KILL MUTATION WHERE database = 'db' AND table = 't'",
+                       "KILL QUERY WHERE query_id IN ('a', 'b') FORMAT Null",
+                       "KILL QUERY WHERE " + expr(r, 3, False)])
+    if x < 45:
+        dest = r.pick(["Disk('backups', '1.zip')", "File('/p')", "S3('u', 'k', 's')", "Disk('b', 'x')"])
+        return r.pick([
+            lambda: "BACKUP TABLE " + tbl(r) + " TO " + dest,
+            lambda: "BACKUP DATABASE db TO " + dest,
+            lambda: "BACKUP ALL TO " + dest + " SETTINGS async = 1",
+            lambda: "BACKUP DICTIONARY d TO " + dest,
+            lambda: "BACKUP TABLE t TO " + dest + " SETTINGS base_backup = Disk('b', 'y')",
+            lambda: "RESTORE TABLE " + tbl(r) + " FROM " + dest,
+            lambda: "RESTORE ALL FROM " + dest + " SETTINGS allow_non_empty_tables = 1",
+            lambda: "RESTORE DATABASE db FROM " + dest,
+        ])()
+    if x < 47:
+        return "CHECK TABLE " + tbl(r) + r.pick(["", " PARTITION 1", " PART 'x'", " FORMAT JSON",
+                                                 " SETTINGS check_query_single_value_result = 0"])
+    if x < 50:
+        return r.pick(["ATTACH TABLE t", "ATTACH TABLE t FROM '/p' (a UInt8) ENGINE = Memory",
+                       "ATTACH TABLE t UUID '00000000-0000-0000-0000-000000000001' (a UInt8) ENGINE = Memory",
+                       "ATTACH DATABASE db", "ATTACH DICTIONARY d", "DETACH TABLE " + tbl(r), "DETACH DICTIONARY d",
+                       "DETACH DATABASE db", "DETACH TABLE IF EXISTS t"])
+    if x < 55:
+        return r.pick([
+            lambda: "DROP TABLE " + ie + tbl(r) + oc + r.pick(["", " SYNC", " NO DELAY"]),
+            lambda: "DROP TABLE t1, t2",
+            lambda: "DROP TEMPORARY TABLE t",
+            lambda: "DROP TABLE IF EMPTY t",
+            lambda: "DROP VIEW " + ie + r.pick(["v", "db.v"]),
+            lambda: "DROP DICTIONARY " + ie + "d",
+            lambda: "DROP DATABASE " + ie + "db" + oc + r.pick(["", " SYNC"]),
+            lambda: "DROP FUNCTION " + ie + "f" + oc,
+            lambda: "DROP USER " + ie + r.pick(["u", "u1, u2"]),
+            lambda: "DROP ROLE " + ie + r.pick(["r", "r1, r2"]) + oc,
+            lambda: "DROP " + r.pick(["ROW POLICY", "POLICY"]) + " " + ie + "p ON " + r.pick(["t", "db.t"]),
+            lambda: "DROP QUOTA q",
+            lambda: "DROP " + r.pick(["SETTINGS PROFILE", "PROFILE"]) + " " + ie + "p",
+            lambda: "DROP INDEX " + ie + "i ON " + r.pick(["t", "db.t"]),
+            lambda: r.pick(["DROP NAMED COLLECTION nc", "DROP RESOURCE res", "DROP WORKLOAD w", "DROP TABLE t SETTINGS a = 1"]),
+        ])()
+    if x < 57:
+        return r.pick(["EXISTS t", "EXISTS TABLE db.t", "EXISTS TEMPORARY TABLE t", "EXISTS VIEW v", "EXISTS DICTIONARY d",
+                       "EXISTS DATABASE db", "UNDROP TABLE t", "UNDROP TABLE db.t"])
+    if x < 59:
+        return r.pick([
+            lambda: "UPDATE " + tbl(r) + " SET " + r.pick(COLS) + " = " + expr(r, 3, False) + " WHERE " + expr(r, 3, False),
+            lambda: "DELETE FROM " + tbl(r) + r.pick(["", " ON CLUSTER c"]) + " WHERE " + expr(r, 3, True),
+            lambda: "DELETE FROM t IN PARTITION 1 WHERE a",
+        ])()
+    return "FROM " + tbl(r) + " SELECT " + col(r) + r.pick(["", " WHERE a > 1", " LIMIT 1"])
 
 
 # ------------------------------------------------------------------------------------------
@@ -745,7 +1334,7 @@ def main():
         out.write((s.encode("utf-8").hex() if as_hex else s) + "\n")
 
 
-GENERATORS = {"select": gen_select, "setop": gen_setop}
+GENERATORS = {"select": gen_select, "setop": gen_setop, "insert": gen_insert, "create": gen_create, "alter": gen_alter, "utility": gen_utility}
 
 if __name__ == "__main__":
     main()
